@@ -89,7 +89,17 @@ impl Method for PhoneticMethod {
         data: &Data,
         config: &Config,
     ) -> Suggestion {
-        let character = keycode_to_char(key);
+        let character = match keycode_to_char(key) {
+            Some(character) => character,
+            None => {
+                // The key doesn't produce a character (e.g. the keypad Enter key),
+                // so the composition stays as it is.
+                if self.buffer.is_empty() {
+                    return Suggestion::empty();
+                }
+                return self.create_suggestion(data, config);
+            }
+        };
         self.buffer.push(character);
         let mut suggestion = self.create_suggestion(data, config);
 
